@@ -249,6 +249,9 @@ func (n *Node) build() {
 						ok = false
 					}
 				}
+				if !bodyComplete(bb.txs, bb.Rec.Txs) { // an application cannot verify a block some of whose transactions it was not given
+					ok = false
+				}
 				if ok {
 					n.verified[string(bb.Hash())] = true
 				}
@@ -338,6 +341,9 @@ func (n *Node) build() {
 							ok = false
 						}
 					}
+					if !bodyComplete(bb.txs, bb.Rec.Txs) {
+						ok = false
+					}
 					if ok {
 						n.verified[string(bb.Hash())] = true
 					}
@@ -368,6 +374,19 @@ func (n *Node) build() {
 	}
 	n.D = d
 	n.started = false
+}
+
+// bodyComplete: the block carries exactly the transactions its header names, in order.
+func bodyComplete(txs []dbft.Transaction[H], hashes []string) bool {
+	if len(txs) != len(hashes) {
+		return false
+	}
+	for i, t := range txs {
+		if t == nil || string(t.Hash()) != hashes[i] {
+			return false
+		}
+	}
+	return true
 }
 
 // bodyOf lists the transactions the library handed to SetTransactions, by hash.
